@@ -153,6 +153,9 @@ func checkC05(c *Ctx) {
 	c.rootLive("ROOT-LIVE", c.AllFuncs("tree"), "the tree is re-rooted on the requested node and keeps all its tips")
 	c.Floor("ROOT-LIVE", 2)
 
+	c.Decides("LASTLINE: the list-file readers shared by the commands (cmd/root.go, io/fileutils, io/utils) do not read lines with bufio ReadString/ReadBytes unless they handle io.EOF themselves: these return the last unterminated line together with io.EOF, which the `for err == nil` line loops never look at")
+	c.lastLineIn("that outgroup is exactly one of the two clades below the root", "cmd/outgroup.go", "cmd/reroot.go")
+
 	// ---- PAIR on the functions of this property
 	only := map[string]bool{"RotateNeighbors": true, "sortNeighbors": true, "RerootOutGroup": true, "RerootMidPoint": true, "UnRoot": true}
 	c.checkPair("PAIR", only)
